@@ -1,0 +1,121 @@
+//! Simulation seams for deterministic-simulation testing
+//!
+//! This module only exists with the `verif` feature. Nothing in it decides
+//! anything: as long as no [`Hooks`] are installed, or on a thread that did
+//! not call [`set_active`], every function forwards to `std`.
+
+use std::cell::Cell;
+use std::sync::OnceLock;
+
+/// Callbacks implemented by a simulator
+pub trait Hooks: Send + Sync {
+    /// Called before a mutex is locked; returns when the simulator grants it
+    fn acquire(&self, mutex: usize);
+
+    /// Called after a mutex has been unlocked
+    fn release(&self, mutex: usize);
+
+    /// A pure scheduling point
+    fn point(&self, site: &'static str);
+}
+
+static HOOKS: OnceLock<Box<dyn Hooks>> = OnceLock::new();
+
+thread_local! {
+    static ACTIVE: Cell<bool> = const { Cell::new(false) };
+}
+
+/// Install the simulator hooks (once per process)
+pub fn install(hooks: Box<dyn Hooks>) {
+    let _ = HOOKS.set(hooks);
+}
+
+/// Mark the calling thread as a simulated thread (or not)
+pub fn set_active(active: bool) {
+    let _ = ACTIVE.try_with(|a| a.set(active));
+}
+
+fn hooks() -> Option<&'static dyn Hooks> {
+    if ACTIVE.try_with(|a| a.get()).unwrap_or(false) {
+        HOOKS.get().map(|b| &**b)
+    } else {
+        None
+    }
+}
+
+/// A pure scheduling point
+pub fn point(site: &'static str) {
+    if let Some(h) = hooks() {
+        h.point(site)
+    }
+}
+
+/// Replacements for `std::sync` primitives that report to the [`Hooks`]
+pub mod sync {
+    use std::ops::{Deref, DerefMut};
+    use std::sync::{LockResult, PoisonError};
+
+    /// A wrapper around [`std::sync::Mutex`]
+    pub struct Mutex<T> {
+        inner: std::sync::Mutex<T>,
+    }
+
+    /// A wrapper around [`std::sync::MutexGuard`]
+    pub struct MutexGuard<'a, T> {
+        guard: Option<std::sync::MutexGuard<'a, T>>,
+        id: usize,
+    }
+
+    impl<T> Mutex<T> {
+        /// See [`std::sync::Mutex::new`]
+        pub const fn new(t: T) -> Self {
+            Self {
+                inner: std::sync::Mutex::new(t),
+            }
+        }
+
+        /// See [`std::sync::Mutex::lock`]
+        pub fn lock(&self) -> LockResult<MutexGuard<'_, T>> {
+            let id = self as *const Self as usize;
+            if let Some(h) = super::hooks() {
+                h.acquire(id)
+            }
+            match self.inner.lock() {
+                Ok(g) => Ok(MutexGuard { guard: Some(g), id }),
+                Err(p) => Err(PoisonError::new(MutexGuard {
+                    guard: Some(p.into_inner()),
+                    id,
+                })),
+            }
+        }
+    }
+
+    impl<T: Default> Default for Mutex<T> {
+        fn default() -> Self {
+            Self::new(T::default())
+        }
+    }
+
+    impl<T> Deref for MutexGuard<'_, T> {
+        type Target = T;
+
+        fn deref(&self) -> &T {
+            self.guard.as_ref().unwrap()
+        }
+    }
+
+    impl<T> DerefMut for MutexGuard<'_, T> {
+        fn deref_mut(&mut self) -> &mut T {
+            self.guard.as_mut().unwrap()
+        }
+    }
+
+    impl<T> Drop for MutexGuard<'_, T> {
+        fn drop(&mut self) {
+            drop(self.guard.take());
+            if let Some(h) = super::hooks() {
+                h.release(self.id)
+            }
+        }
+    }
+}
